@@ -33,6 +33,7 @@ fjx = Function('fjx', SetS, Sq, I, I)    # inverse of the index map
 addall = Function('addall', Sq, Sq, Sq)  # s ++ first occurrences of members of t not already present
 cnt = Function('cnt', Sq, V, I)          # number of occurrences
 srem = Function('srem', Sq, V, Sq)        # s without the first occurrence of x (List.erase)
+chain_in = Function('chain_in', SetS, Sq, B)   # every element of the sequence is in the set
 flat = Function('flat', Sq, Sq)           # concatenation of a sequence of (boxed) sequences
 smap = Function('smap', MapS, Sq, Sq)     # [M[x] for x in s]
 seqeq = Function('seqeq', Sq, Sq, B)     # sequence equality: as a hypothesis it yields term equality (sequences are extensional),
@@ -135,6 +136,12 @@ def axioms():
     A('srem_mem_self', ForAll([s, x], Implies(nodup(s), Not(mem(srem(s, x), x))), patterns=[srem(s, x)]))
     A('srem_len', ForAll([s, x], Implies(mem(s, x), slen(srem(s, x)) == slen(s) - 1), patterns=[srem(s, x)]))
     A('srem_nodup', ForAll([s, x], Implies(nodup(s), nodup(srem(s, x))), patterns=[srem(s, x)]))
+    # chain_in: elimination, and introduction BY INDUCTION along the sequence (lemmas/Chain.lean): if the first element is in S and
+    # membership is carried from each element to the next, every element is in S
+    A('chain_in_elim', ForAll([P, s, i], Implies(And(chain_in(P, s), 0 <= i, i < slen(s)), Select(P, at(s, i))), patterns=[MultiPattern(chain_in(P, s), at(s, i))]))
+    A('chain_in_intro', ForAll([P, s], Or(chain_in(P, s), And(slen(s) > 0, Not(Select(P, at(s, 0)))),
+                                            Exists([i], And(0 <= i, i + 1 < slen(s), Select(P, at(s, i)), Not(Select(P, at(s, i + 1)))))),
+                               patterns=[chain_in(P, s)]))
     # upd
     A('upd_len', ForAll([s, i, x], slen(upd(s, i, x)) == slen(s), patterns=[upd(s, i, x)]))
     A('upd_at', ForAll([s, i, x, j], Implies(And(0 <= j, j < slen(s)), at(upd(s, i, x), j) == If(j == i, x, at(s, j))),
